@@ -251,8 +251,7 @@ def svd(a, axes=(0, 1), sU=1, nU=True, compute_uv=True,
             # Presumably {charge: D} data (k_block) for leg to be attached to U with signature sU
             # TODO: control default for sectors not present in k_block
             sector_minD= min(k_block.values())
-            nsym = a.config.sym.NSYM
-            st = [x[nsym:] for x in struct.t] if nU else [x[:nsym] for x in struct.t]
+            st = _svd_connecting_charges(a.config, struct, sU, nU)
             minD = tuple(min(k_block.get(t, sector_minD), d) for t, d in zip(st, minD))
 
     if verbosity>2:
@@ -320,6 +319,22 @@ def svd(a, axes=(0, 1), sU=1, nU=True, compute_uv=True,
     return U, S, V
 
 
+def _svd_connecting_charges(config, struct, sU, nU):
+    """ Charges of the leg connecting U, S, and V (leg of U with signature sU) for consecutive blocks in struct. """
+    nsym = config.sym.NSYM
+    if nU and sU == struct.s[1]:
+        t_con = tuple(x[nsym:] for x in struct.t)
+    elif nU: # and -sQ == struct.s[1]
+        t_con = np.array(struct.t, dtype=np.int64).reshape((len(struct.t), 2, nsym))
+        t_con = tuple(map(tuple, config.sym.fuse(t_con[:, 1:, :], (1,), -1).tolist()))
+    elif sU == -struct.s[0]: # and nV (not nU)
+        t_con = tuple(x[:nsym] for x in struct.t)
+    else: # not nU and sU == struct.s[0]
+        t_con = np.array(struct.t, dtype=np.int64).reshape((len(struct.t), 2, nsym))
+        t_con = tuple(map(tuple, config.sym.fuse(t_con[:, :1, :], (1,), -1).tolist()))
+    return t_con
+
+
 def _meta_svd(config, struct, slices, minD, sU, nU):
     """
     meta and struct for svd
@@ -342,16 +357,7 @@ def _meta_svd(config, struct, slices, minD, sU, nU):
         minD = tuple(mD for mD in minD if mD > 0)
         struct = struct._replace(t=at, D=aD)
 
-    if nU and sU == struct.s[1]:
-        t_con = tuple(x[nsym:] for x in struct.t)
-    elif nU: # and -sQ == struct.s[1]
-        t_con = np.array(struct.t, dtype=np.int64).reshape((len(struct.t), 2, nsym))
-        t_con = tuple(map(tuple, config.sym.fuse(t_con[:, 1:, :], (1,), -1).tolist()))
-    elif sU == -struct.s[0]: # and nV (not nU)
-        t_con = tuple(x[:nsym] for x in struct.t)
-    else: # not nU and sU == struct.s[0]
-        t_con = np.array(struct.t, dtype=np.int64).reshape((len(struct.t), 2, nsym))
-        t_con = tuple(map(tuple, config.sym.fuse(t_con[:, :1, :], (1,), -1).tolist()))
+    t_con = _svd_connecting_charges(config, struct, sU, nU)
     Un, Vn = (struct.n, n0) if nU else (n0, struct.n)
 
     Ut = tuple(x[:nsym] + y for x, y in zip(struct.t, t_con))
